@@ -234,6 +234,25 @@ def r5(rr, repo):
                 rr.ob(f'the test {U(t)!r} (did the user mention {key}?) is evaluated before "present but empty" is turned into "absent" - afterwards an explicit empty switch looks like no switch and the filter is auto-chained / given an output anyway',
                       before, cmod, t, witness=f'test at line {t.lineno}, deletion at line {d.lineno}', key=f'presence-before-normalise|{key}')
     rr.floor('ordered (test, normalisation) pairs', n, 2, cmod, loop)
+    # the two decisions of auto-chaining themselves: a filter is chained to the previous one exactly when the user said nothing about its sources, and a filter offers
+    # itself as the next one's source when the user said nothing about its outputs (or gave some) and its class can produce filter outputs
+    sink = [st for st in loop.body if isinstance(st, ast.If) and any(isinstance(x, ast.Assign) and any(U(t) == f'{cfg}.sources' for t in x.targets) and U(x.value) == 'last_source' for x in st.body)]
+    if len(sink) != 1:
+        rr.unresolved('the statement that chains a filter to the previous one was not found', cmod, loop, key='chain-sink-form')
+    else:
+        conj = [U(v).replace(' ', '').replace('"', "'") for v in (sink[0].test.values if isinstance(sink[0].test, ast.BoolOp) and isinstance(sink[0].test.op, ast.And) else [sink[0].test])]
+        rr.ob("a filter is chained to the previous one exactly when there is a previous one and the user said nothing about its sources", sorted(conj) == sorted(['last_source', f"'sources'notin{cfg}"]), cmod, sink[0],
+              witness=U(sink[0].test)[:100], key='chain-sink')
+    src = [st for st in loop.body if isinstance(st, ast.If) and any(isinstance(x, ast.Assign) and any(U(t) == 'last_source' for t in x.targets) for x in st.body)]
+    if len(src) != 1:
+        rr.unresolved('the statement that offers a filter as the next one\'s source was not found', cmod, loop, key='chain-source-form')
+    else:
+        t = src[0].test
+        ok = isinstance(t, ast.BoolOp) and isinstance(t.op, ast.And) and len(t.values) == 2 and isinstance(t.values[0], ast.BoolOp) and isinstance(t.values[0].op, ast.Or) and \
+            sorted(U(v).replace(' ', '').replace('"', "'") for v in t.values[0].values) == sorted([f"'outputs'notin{cfg}", f'{cfg}.outputs']) and U(t.values[1]).startswith('filter_can_do_filter_outputs(')
+        rr.ob("a filter becomes the next one's default source when its outputs are unmentioned or non-empty, and its class can produce filter outputs", ok, cmod, src[0], witness=U(t)[:120], key='chain-source')
+        st_ = [x for x in src[0].body if isinstance(x, ast.Assign) and any(U(t_) == 'last_source' for t_ in x.targets)]
+        rr.ob('... and it is offered under its own id', bool(st_) and U(st_[0].value) == f'{cfg}.id', cmod, st_[0] if st_ else src[0], witness=U(st_[0].value) if st_ else '', key='chain-source-id')
 
 
 @rule('C12.R6', 'every filter gets an id and generated ids cannot clash with each other: a filter without --id is named after its class when it is the only unnamed one of that class, otherwise class name + its '
